@@ -80,6 +80,7 @@ pub struct Shared {
     pub gates: Vec<tokio::sync::Semaphore>,
     pub peers: Mutex<Vec<Option<H>>>,
     pub ids: Mutex<Vec<u64>>,
+    pub weaks: Mutex<Vec<Option<ActorWeak<SA>>>>,
     pub model: Mutex<Vec<i64>>,
     pub opctr: AtomicU64,
     pub erased: bool,
@@ -93,6 +94,7 @@ impl Shared {
             gates: (0..ngates).map(|_| tokio::sync::Semaphore::new(0)).collect(),
             peers: Mutex::new((0..n_actors).map(|_| None).collect()),
             ids: Mutex::new(vec![0; n_actors]),
+            weaks: Mutex::new((0..n_actors).map(|_| None).collect()),
             model: Mutex::new(vec![0; n_actors]),
             opctr: AtomicU64::new(0),
             erased,
@@ -832,6 +834,35 @@ impl SA {
                         drop(h2);
                     }
                 }
+                Step::JoinAskTo { t1, b1, t2, b2, ms } => {
+                    if let (Some(h1), Some(h2)) = (sh.peer(*t1), sh.peer(*t2)) {
+                        sh.model_add(*t1, 1, "tmp+");
+                        sh.model_add(*t2, 1, "tmp+");
+                        let _tmp1 = TmpRef { sh: &sh, actor: *t1 };
+                        let _tmp2 = TmpRef { sh: &sh, actor: *t2 };
+                        let f1 = send_via(&sh, ctx, *t1, &h1, SendKind::Ask, MTy::U, b1.clone());
+                        let f2 = send_via(&sh, ctx, *t2, &h2, SendKind::AskTo(*ms), MTy::U, b2.clone());
+                        let _ = tokio::join!(f1, f2);
+                        drop(h1);
+                        drop(h2);
+                    }
+                }
+                Step::JoinAskPanic { target, body } => {
+                    if let Some(h) = sh.peer(*target) {
+                        sh.model_add(*target, 1, "tmp+");
+                        let _tmp = TmpRef { sh: &sh, actor: *target };
+                        let f1 = send_via(&sh, ctx, *target, &h, SendKind::Ask, MTy::U, body.clone());
+                        let f2 = async {
+                            tokio::task::yield_now().await;
+                            if hook == HookKind::Handler {
+                                sh.log.push(K::HPanic { actor: idx, uid: cur_uid });
+                            }
+                            panic!("scripted {:?} panic actor {} (join sibling)", hook, idx);
+                        };
+                        let _ = tokio::join!(f1, f2);
+                        drop(h);
+                    }
+                }
                 Step::HoldRef(t) => {
                     if let Some(h) = sh.peer(*t) {
                         self.held.push((*t, h));
@@ -1186,6 +1217,7 @@ pub fn spawn_sa(
     let id = r.identity().id;
     reg_insert(id, &sh.log, idx);
     sh.ids.lock().unwrap_or_else(|e| e.into_inner())[idx] = id;
+    sh.weaks.lock().unwrap_or_else(|e| e.into_inner())[idx] = Some(ActorRef::downgrade(&r));
     (r, jh)
 }
 
@@ -1224,7 +1256,29 @@ pub fn check_laws(ar: &ActorResult<SA>) -> Vec<String> {
     v
 }
 
+/// What a supervisor sees the instant the JoinHandle resolves: through a reference upgraded from a weak one (if any
+/// strong reference still exists) `is_alive()` must already be false and a send must fail.
+async fn at_join(sh: &Arc<Shared>, idx: usize, weak: &ActorWeak<SA>) {
+    if let Some(r) = weak.upgrade() {
+        let alive = r.is_alive();
+        sh.log.push(K::Sample {
+            actor: idx,
+            phase: "at-join",
+            finished: true,
+            alive: Some(alive),
+            weak_alive: weak.is_alive(),
+            upgrade: true,
+            model: sh.model_of(idx),
+        });
+        let h = H::D(r);
+        let uid = 8_000_000 + sh.next_op();
+        send_via(sh, Ctx::Main, idx, &h, SendKind::Tell, MTy::U, Body::plain(uid)).await;
+        drop(h);
+    }
+}
+
 pub async fn watch(sh: Arc<Shared>, idx: usize, jh: JoinHandle<ActorResult<SA>>) {
+    let weak = jh_weak(&sh, idx);
     let res = jh.await;
     let sum = match &res {
         Ok(ar) => EndSummary {
@@ -1257,6 +1311,9 @@ pub async fn watch(sh: Arc<Shared>, idx: usize, jh: JoinHandle<ActorResult<SA>>)
     let sum = match res {
         Ok(ar) => {
             sh.log.push(K::Ended { actor: idx, sum });
+            if let Some(w) = &weak {
+                at_join(&sh, idx, w).await;
+            }
             drop(ar);
             return;
         }
@@ -1276,4 +1333,11 @@ pub async fn watch(sh: Arc<Shared>, idx: usize, jh: JoinHandle<ActorResult<SA>>)
         }
     };
     sh.log.push(K::Ended { actor: idx, sum });
+    if let Some(w) = &weak {
+        at_join(&sh, idx, w).await;
+    }
+}
+
+fn jh_weak(sh: &Arc<Shared>, idx: usize) -> Option<ActorWeak<SA>> {
+    sh.weaks.lock().unwrap_or_else(|e| e.into_inner()).get(idx).cloned().flatten()
 }
